@@ -98,7 +98,7 @@ P = {
  'C12': dict(
    text='The discard sub-parser (states 10-15) is extracted from the IR as a pushdown transition table and run over every '
         'well-formed unknown item the reference grammar derives up to the bound; each must end in "expecting a name" at the '
-        'original level with no error exit. Sections inherit the whole flag word of their context and a context's flags are final before sections are created. Every skipper state must examine its token.',
+        'original level with no error exit. Sections inherit the whole flag word of their context and the flags of a context are final before sections are created. Every skipper state must examine its token.',
    note=TRUST + 'Bounded enumeration of item shapes (nesting/width bounds in the evidence).',
    tech='automaton extraction by constant propagation over IR + exhaustive bounded check of the extracted model',
    ref='DESIGN.md 2/C12'),
@@ -149,7 +149,7 @@ P = {
  'C19': dict(
    text='Structural clauses: the per-option printer is called only from the single array-order loop; skip condition is exactly '
         'filter-non-null and filter-returns-non-zero; nested calls receive the effective filter and indent+1; each built-in value '
-        'writer call sits on the null arm of the print-callback test. Only the setter writes a context's filter; every scalar print path decides whether a value exists. Exact text is NOT decided.',
+        'writer call sits on the null arm of the print-callback test. Only the setter writes the filter of a context; every scalar print path decides whether a value exists. Exact text is NOT decided.',
    note=TRUST,
    tech='call-site / argument-provenance rules over IR',
    ref='DESIGN.md 2/C19',
